@@ -246,6 +246,17 @@ def run(ctx):
                         okm = all(len(w_) == 1 for w_ in where_) and [tuple(int(x) for x in w_[0]) for w_ in where_] == [((i_ >> k_) & 1, (j_ >> k_) & 1) for k_ in range(q)]
                     ctx.case(key=('mdelta-big', q, ia, ja), nontrivial=True)
                     ctx.check(okm, 'matrix_delta:value', 'matrix_delta(%d, %d, %d, -1.5): the non-zero entries are not at the bits of the position' % (q, ia, ja))
+    # integer seeds: the noise of different cores is independent (distinct draws), so that the entries stay of order one for
+    # sizeable noise and thousands of modes (a random walk of size noise * sqrt(d), not a power (1 + noise)^d)
+    for sd in (0, 1, 7, 42):
+        Yn = teneva.rand_stab([3] * 6, 3, noise=1e-2, seed=sd)
+        inner = [G - np.eye(G.shape[0], G.shape[2])[:, None, :] for G in Yn[1:-1]]
+        same = any(np.array_equal(inner[a_], inner[b_]) for a_ in range(len(inner)) for b_ in range(a_ + 1, len(inner)))
+        ctx.case(key=('rand_stab-distinct', sd), nontrivial=True)
+        ctx.check(not same, 'rand_stab:noise', 'rand_stab(seed=%d): two cores carry bit-identical noise' % sd)
+        Yl = teneva.rand_stab([3] * 4000, 4, noise=2e-3, seed=sd)
+        vl = float(teneva.get(Yl, [int(x) for x in np.random.default_rng(sd).integers(0, 3, size=4000)]))
+        ctx.check(abs(vl - 1.) < 0.9, 'rand_stab:order-one', 'rand_stab([3]*4000, 4, noise=2e-3, seed=%d): entry %.3g is not of order one' % (sd, vl))
     # stable random tensor stays O(1) in any dimension
     for d in (10, 200, 2000):
         Y = teneva.rand_stab([3] * d, 4, noise=1e-12, seed=3)
